@@ -31,6 +31,8 @@ static int cmd_run(int argc, char **argv) {
     std::string out = arg_of(argc, argv, "--out", "/verif/out/tmp");
     std::string wname = arg_of(argc, argv, "--worker", "0");
     int max_viol = atoi(arg_of(argc, argv, "--max-violations", "3").c_str());
+    std::set<std::string> excluded;
+    { std::string k = arg_of(argc, argv, "--exclude", ""); size_t pos = 0; while (!k.empty() && pos <= k.size()) { size_t e = k.find(',', pos); if (e == std::string::npos) e = k.size(); if (e > pos) excluded.insert(k.substr(pos, e - pos)); pos = e + 1; } }
     if (!is_known_property(prop)) { fprintf(stderr, "unknown property %s\n", prop.c_str()); return 2; }
     std::string curfile = out + "/cur-" + wname;
     int curfd = open(curfile.c_str(), O_CREAT | O_WRONLY | O_TRUNC, 0644);
@@ -46,6 +48,7 @@ static int cmd_run(int argc, char **argv) {
         Plan p;
         uint64_t rs = run_seed(seed, prop, idx);
         if (!generate_plan(prop, rs, p)) { fprintf(stderr, "cannot generate plan\n"); return 2; }
+        if (!excluded.empty()) { std::string trg = plan_trigger(p); if (!trg.empty() && excluded.count(trg)) { agg.inc("excluded." + trg); agg.runs++; done++; continue; } }
         double t_run = getenv("VERIF_SLOW") ? now_s() : 0;
         Verdict v = evaluate_plan(p, &agg);
         if (getenv("VERIF_SLOW")) { double dt = now_s() - t_run; if (dt > atof(getenv("VERIF_SLOW"))) fprintf(stderr, "SLOW idx=%llu %.3fs ops=%zu bytes=%zu scenario=%s\n", (unsigned long long) idx, dt, p.ops.size(), p.size_measure(), p.scenario.c_str()); }
@@ -220,7 +223,7 @@ static int cmd_shrink(int argc, char **argv) {
         for (size_t i = p.cbs.size(); i-- > 0 && g_tests < max_tests;) { Plan q = p; q.cbs.erase(q.cbs.begin() + (long) i); if (still_fails(q)) { p = q; progress = true; } }
         {
             std::vector<std::string> keys; for (auto &kv : p.cfg.kv) keys.push_back(kv.first);
-            for (auto &k : keys) { if (g_tests >= max_tests) break; if (k == "wellformed" || k == "skeleton" || k == "scn" || k.compare(0, 4, "c16_") == 0 || k.compare(0, 4, "c11_") == 0) continue; Plan q = p; q.cfg.kv.erase(k); if (still_fails(q)) { p = q; progress = true; } }
+            for (auto &k : keys) { if (g_tests >= max_tests) break; if (k == "wellformed" || k == "skeleton" || k == "scn" || k.compare(0, 4, "c16_") == 0 || k.compare(0, 4, "c11_") == 0 || k.compare(0, 4, "c07_") == 0 || k == "res_decomp" || k == "clock_step") continue; Plan q = p; q.cfg.kv.erase(k); if (still_fails(q)) { p = q; progress = true; } }
         }
         // 5. drop unused tail bytes of the streams, then try shortening from the end
         for (size_t c = 0; !domain && c < p.conns.size(); c++) for (int d = 0; d < 2; d++) {
